@@ -354,25 +354,28 @@ def r_selfnode_deref(ctx):
 
 # ----------------------------------------------------------------------------- C20
 def fallback_site(ctx):
-    """the majority test in the tick whose counter counts recent responders"""
+    """(function, majority test, counted condition ast) of the leader fallback: the majority test whose counter counts
+    recent responders (its counting condition reads the last-response table, by subscript or by iterating its values)"""
+    from .election import _counter_info
     P, R = ctx.P, ctx.R
-    t = R.tick
+    best = None
     for f, cmpn, a, counter, th, lc in majority_sites(ctx):
-        if f is not t or not isinstance(counter, ast.Name):
+        if not isinstance(counter, ast.Name):
             continue
-        # the counting loop tests lastResponseTime
-        for loop in [x for x in U.walk_no_nested(t.node) if isinstance(x, ast.For)]:
-            if loop.lineno > cmpn.lineno:
-                continue
-            tests = [x for x in ast.walk(loop) if isinstance(x, ast.If) and any(isinstance(y, ast.AugAssign) and isinstance(y.target, ast.Name) and y.target.id == counter.id for y in ast.walk(x))]
-            for ts in tests:
-                if any(isinstance(s, ast.Subscript) and P.self_attr(s.value, t.self_name) == R.lastResponseTime for s in ast.walk(ts.test)):
-                    best = (cmpn, loop, ts)
-        try:
-            return best
-        except NameError:
+        info = _counter_info(ctx, f, counter, cmpn)
+        if info is None:
             continue
-    raise AnalysisError('leader fallback test (majority over recent responders) not found in the tick')
+        extra = info[4]
+        cond, it = extra.get('cond'), extra.get('iter')
+        if cond is None:
+            continue
+        by_sub = any(isinstance(s_, ast.Subscript) and P.self_attr(s_.value, f.self_name) == R.lastResponseTime for s_ in ast.walk(cond))
+        by_iter = it is not None and any(P.self_attr(x, f.self_name) == R.lastResponseTime for x in ast.walk(it))
+        if by_sub or by_iter:
+            best = (f, cmpn, extra)
+    if best is None:
+        raise AnalysisError('leader fallback test (majority over recent responders) not found')
+    return best
 
 
 @rule('R-fallback-every-tick', 'a leader evaluates the fallback test on every tick; it counts voters that answered within '
@@ -382,53 +385,64 @@ def r_fallback_every_tick(ctx):
     t = R.tick
     ex = U.explorer(ctx, t)
     cfg = ex.cfg
-    cmpn, loop, test = fallback_site(ctx)
-    cn = [n for n in U.nodes_containing(cfg, cmpn) if n.kind == 'cond'][0]
+    ff, cmpn, cinfo = fallback_site(ctx)
+    fex = U.explorer(ctx, ff)
+    fcfg = fex.cfg
+    cn = [n for n in U.nodes_containing(fcfg, cmpn) if n.kind == 'cond'][0]
+    if ff is t:
+        test_nodes = [cn.id]
+    else:
+        # the tick must call the helper; inside the helper the test must be reached on every path
+        test_nodes = [U.node_containing(cfg, c).id for g, c in P.callers_of(ff) if g is t]
+        ctx.require(test_nodes, 'the tick does not call %s' % ff.qualname)
+        ctx.tick()
+        if fcfg.exit.id in fcfg.reachable_from(fcfg.entry.id, avoid=[cn.id], follow_exc=False):
+            ctx.violation('%s:fallback-helper-skips-test' % ff.qualname, ff.loc(), 'the fallback helper can return without evaluating the majority test', instance='fallback helper always tests')
     # first LEADER test in the tick
     leader_conds = [n for n in cfg.nodes if n.kind == 'cond' and isinstance(n.ast, ast.Compare) and P.self_attr(n.ast.left, t.self_name) == R.raftState
                     and R.is_state_const(n.ast.comparators[0], 'LEADER') and isinstance(n.ast.ops[0], ast.Eq)]
     ctx.require(leader_conds, 'no `state == LEADER` block in the tick')
     first = min(leader_conds, key=lambda n: n.lineno)
     tt = [d for d, l in first.succ if l == ('cond', True)][0]
-    reach = cfg.reachable_from(tt, avoid=[cn.id], follow_exc=False)
+    reach = cfg.reachable_from(tt, avoid=test_nodes, follow_exc=False)
     inst = 'leader tick always reaches the fallback test'
     ctx.tick()
     if cfg.exit.id in reach:
         ctx.violation('%s:leader-tick-skips-fallback' % t.qualname, t.loc(first.ast),
                       'a leader can finish a tick without evaluating the fallback test (a cut-off leader keeps reporting itself as leader)', instance=inst)
     else:
-        ctx.ok(inst, t.loc(cmpn), 'tick exit unreachable from the LEADER block without passing the test')
-    # the test is reached only by leaders with a ready transport: nothing returns before it except `not ready`
+        ctx.ok(inst, ff.loc(cmpn), 'tick exit unreachable from the LEADER block without passing the test')
     # counting condition: lastResponseTime[v] > now - timeout
-    c = test.test
+    c = cinfo['cond']
+    varnames = set(x.id for x in ast.walk(cinfo['var']) if isinstance(x, ast.Name)) if cinfo.get('var') is not None else set()
+    iter_is_table = cinfo.get('iter') is not None and any(P.self_attr(x, ff.self_name) == R.lastResponseTime for x in ast.walk(cinfo['iter']))
     inst = 'a voter counts as alive iff it answered within the fallback timeout'
     okc = False
     if isinstance(c, ast.Compare) and len(c.ops) == 1:
         l, r, op = c.left, c.comparators[0], c.ops[0]
-        l_is = isinstance(l, ast.Subscript) and P.self_attr(l.value, t.self_name) == R.lastResponseTime
+        l_is = (isinstance(l, ast.Subscript) and P.self_attr(l.value, ff.self_name) == R.lastResponseTime) or (iter_is_table and isinstance(l, ast.Name) and l.id in varnames)
         other = r if l_is else l
         good_dir = (l_is and isinstance(op, (ast.Gt, ast.GtE))) or (not l_is and isinstance(op, (ast.Lt, ast.LtE)))
-        # other = clock - timeout
         d = other
         if isinstance(other, ast.Name):
-            defs = [x for x in U.walk_no_nested(t.node) if isinstance(x, ast.Assign) and any(isinstance(tg, ast.Name) and tg.id == other.id for tg in x.targets)]
+            defs = [x for x in U.walk_no_nested(ff.node) if isinstance(x, ast.Assign) and any(isinstance(tg, ast.Name) and tg.id == other.id for tg in x.targets)]
             d = defs[-1].value if defs else None
         shape = isinstance(d, ast.BinOp) and isinstance(d.op, ast.Sub) and _is_clock_call(d.left) and \
             any(isinstance(x, ast.Attribute) and x.attr == 'leaderFallbackTimeout' for x in ast.walk(d.right))
         okc = good_dir and shape
     ctx.tick()
     if okc:
-        ctx.ok(inst, t.loc(c), '`%s` with deadline = now - conf.leaderFallbackTimeout' % unparse(c))
+        ctx.ok(inst, ff.loc(c), '`%s` with deadline = now - conf.leaderFallbackTimeout' % unparse(c))
     else:
-        ctx.violation('%s:fallback-count-condition' % t.qualname, t.loc(c), 'responders are counted under `%s`, which is not "answered after now - leaderFallbackTimeout"' % unparse(c), instance=inst)
+        ctx.violation('%s:fallback-count-condition' % ff.qualname, ff.loc(c), 'responders are counted under `%s`, which is not "answered after now - leaderFallbackTimeout"' % unparse(c), instance=inst)
     # failing arm
     op = cmpn.ops[0]
     from .election import counter_on_left
     counter_left = counter_on_left(cmpn)
     fail_when_true = (isinstance(op, (ast.LtE, ast.Lt)) and counter_left) or (isinstance(op, (ast.GtE, ast.Gt)) and not counter_left)
     arm = [d for d, l in cn.succ if l == ('cond', fail_when_true)]
-    fol = [n.id for n in _set_state_nodes(ctx, ex, t, 'FOLLOWER')]
-    lead_none = [n.id for n in cfg.nodes if n.kind == 'stmt' and isinstance(n.ast, ast.Assign) and any(P.self_attr(x, t.self_name) == R.leaderPtr for x in n.ast.targets)
+    fol = [n.id for n in _set_state_nodes(ctx, fex, ff, 'FOLLOWER')]
+    lead_none = [n.id for n in fcfg.nodes if n.kind == 'stmt' and isinstance(n.ast, ast.Assign) and any(P.self_attr(x, ff.self_name) == R.leaderPtr for x in n.ast.targets)
                  and isinstance(n.ast.value, ast.Constant) and n.ast.value.value is None]
     inst = 'failing fallback test steps down and forgets the leader'
     ctx.tick()
@@ -436,14 +450,14 @@ def r_fallback_every_tick(ctx):
     if not arm:
         problems.append('no failing arm')
     else:
-        if cfg.exit.id in cfg.reachable_from(arm[0], avoid=fol, follow_exc=False):
+        if fcfg.exit.id in fcfg.reachable_from(arm[0], avoid=fol, follow_exc=False):
             problems.append('the failing arm does not switch to FOLLOWER on every path')
-        if cfg.exit.id in cfg.reachable_from(arm[0], avoid=lead_none, follow_exc=False):
+        if fcfg.exit.id in fcfg.reachable_from(arm[0], avoid=lead_none, follow_exc=False):
             problems.append('the failing arm does not clear the leader pointer on every path')
     if problems:
-        ctx.violation('%s:fallback-arm' % t.qualname, t.loc(cmpn), '; '.join(problems), instance=inst)
+        ctx.violation('%s:fallback-arm' % ff.qualname, ff.loc(cmpn), '; '.join(problems), instance=inst)
     else:
-        ctx.ok(inst, t.loc(cmpn), 'FOLLOWER transition and leader pointer reset on all paths of the failing arm')
+        ctx.ok(inst, ff.loc(cmpn), 'FOLLOWER transition and leader pointer reset on all paths of the failing arm')
     ctx.expect_min(3)
 
 
@@ -530,59 +544,68 @@ def _mini_eval(func, env, resolve):
 
 
 @rule('R-hasquorum', 'hasQuorum equals "connected voters (+self) are a strict majority of voters (+self)" for every cluster '
-                     'size 0..8, every number of connected voters, with and without an own address')
+                     'size 0..8, every number of connected voters, with and without an own address, also when the connected '
+                     'set holds read-only nodes or stale (removed) nodes')
 def r_hasquorum(ctx):
     P, R = ctx.P, ctx.R
     f = P.lookup_method(R.S, 'hasQuorum')
     ctx.require(f is not None, 'public property hasQuorum is gone')
     sn = f.self_name
     state = {}
+    # node categories: VC voter connected, VD voter not connected, OC read-only connected, ST stale (in the connected set only)
+    SETS = {'voters': frozenset(['VC', 'VD']), 'connected': frozenset(['VC', 'OC', 'ST']), 'observers': frozenset(['OC'])}
 
     class SetVal(object):
-        def __init__(self, kind):
-            self.kind = kind
+        def __init__(self, cats):
+            self.cats = frozenset(cats)
 
-    def resolve(e, env):
+        def size(self):
+            return sum(state[c] for c in self.cats)
+
+    def as_set(e, env):
         a = P.self_attr(e, sn)
         if a == R.voters:
-            return (SetVal('voters'),)
+            return SetVal(SETS['voters'])
         if a == R.connected:
-            return (SetVal('connected'),)
+            return SetVal(SETS['connected'])
         if a == R.observers:
-            return (SetVal('observers'),)
-        if a is not None and a not in (R.selfNode,):
-            return None
+            return SetVal(SETS['observers'])
         if isinstance(e, ast.Name) and isinstance(env.get(e.id), SetVal):
-            return (env[e.id],)
+            return env[e.id]
+        if isinstance(e, ast.Call) and isinstance(e.func, ast.Attribute) and e.func.attr in ('intersection', 'union', 'difference', 'copy') :
+            l = as_set(e.func.value, env)
+            if l is None:
+                return None
+            if e.func.attr == 'copy':
+                return l
+            if not e.args:
+                return None
+            r = as_set(e.args[0], env)
+            if r is None:
+                return None
+            return SetVal({'intersection': l.cats & r.cats, 'union': l.cats | r.cats, 'difference': l.cats - r.cats}[e.func.attr])
+        if isinstance(e, ast.BinOp) and isinstance(e.op, (ast.BitAnd, ast.BitOr, ast.Sub)):
+            l, r = as_set(e.left, env), as_set(e.right, env)
+            if l is None or r is None:
+                return None
+            return SetVal(l.cats & r.cats if isinstance(e.op, ast.BitAnd) else (l.cats | r.cats if isinstance(e.op, ast.BitOr) else l.cats - r.cats))
+        if isinstance(e, ast.Call) and isinstance(e.func, ast.Name) and e.func.id in ('set', 'frozenset', 'list') and len(e.args) == 1:
+            return as_set(e.args[0], env)
+        return None
+
+    def resolve(e, env):
+        sv = as_set(e, env)
+        if sv is not None:
+            return (sv,)
         if isinstance(e, ast.Compare) and len(e.ops) == 1 and P.self_attr(e.left, sn) == R.selfNode and isinstance(e.comparators[0], ast.Constant) \
                 and e.comparators[0].value is None:
             has = state['s']
             return (has if isinstance(e.ops[0], ast.IsNot) else not has,)
         if isinstance(e, ast.Call) and isinstance(e.func, ast.Name) and e.func.id == 'len' and e.args:
-            inner = e.args[0]
-            r = resolve(inner, env)
-            if r is not None and isinstance(r[0], SetVal):
-                k = r[0].kind
-                if k == 'voters':
-                    return (state['n'],)
-                if k == 'voters&connected':
-                    return (state['c'],)
-                if k == 'connected':
-                    return (state['c'] + state['o'],)      # connected set also holds read-only nodes
-                if k == 'observers':
-                    return (state['o'],)
+            sv = as_set(e.args[0], env)
+            if sv is not None:
+                return (sv.size(),)
             return None
-        if isinstance(e, ast.Call) and isinstance(e.func, ast.Attribute) and e.func.attr == 'intersection' and e.args:
-            l = resolve(e.func.value, env)
-            r = resolve(e.args[0], env)
-            if l and r and isinstance(l[0], SetVal) and isinstance(r[0], SetVal) and {l[0].kind, r[0].kind} == {'voters', 'connected'}:
-                return (SetVal('voters&connected'),)
-            return None
-        if isinstance(e, ast.BinOp) and isinstance(e.op, ast.BitAnd):
-            l = resolve(e.left, env)
-            r = resolve(e.right, env)
-            if l and r and isinstance(l[0], SetVal) and isinstance(r[0], SetVal) and {l[0].kind, r[0].kind} == {'voters', 'connected'}:
-                return (SetVal('voters&connected'),)
         return None
     bad = None
     n_eval = 0
@@ -590,23 +613,24 @@ def r_hasquorum(ctx):
         for n in range(0, 9):
             for c in range(0, n + 1):
                 for o in (0, 2):
-                    for s in (True, False):
-                        state.update({'n': n, 'c': c, 'o': o, 's': s})
-                        v = _mini_eval(f, {}, resolve)
-                        n_eval += 1
-                        want = 2 * (c + (1 if s else 0)) > (n + (1 if s else 0))
-                        if bool(v) != want and bad is None:
-                            bad = (n, c, o, s, v, want)
+                    for st in (0, 1):
+                        for s in (True, False):
+                            state.update({'VC': c, 'VD': n - c, 'OC': o, 'ST': st, 's': s})
+                            v = _mini_eval(f, {}, resolve)
+                            n_eval += 1
+                            want = 2 * (c + (1 if s else 0)) > (n + (1 if s else 0))
+                            if bool(v) != want and bad is None:
+                                bad = (n, c, o, st, s, v, want)
     except AnalysisError as e:
         ctx.unproven('hasQuorum arithmetic', f.loc(), str(e))
         ctx.expect_min(1)
         return
     ctx.tick(n_eval)
     if bad is None:
-        ctx.ok('hasQuorum arithmetic', f.loc(), '%d evaluations (n=0..8 voters, every connected count, 0/2 read-only nodes connected, with/without own address)' % n_eval)
+        ctx.ok('hasQuorum arithmetic', f.loc(), '%d evaluations (n=0..8 voters, every connected count, 0/2 read-only and 0/1 stale nodes in the connected set, with/without own address)' % n_eval)
     else:
-        n, c, o, s, v, want = bad
+        n, c, o, st, s, v, want = bad
         ctx.violation('SyncObj.hasQuorum:arithmetic', f.loc(),
-                      'with %d other voters, %d of them connected, %d read-only nodes connected and %s own address hasQuorum evaluates to %s, expected %s'
-                      % (n, c, o, 'an' if s else 'no', v, want), instance='hasQuorum arithmetic')
+                      'with %d other voters, %d of them connected, %d read-only and %d removed-but-still-connected nodes in the connected set and %s own address hasQuorum evaluates to %s, expected %s'
+                      % (n, c, o, st, 'an' if s else 'no', v, want), instance='hasQuorum arithmetic')
     ctx.expect_min(1)
